@@ -791,8 +791,17 @@ class Phase(Angle):
             elif phase_out is not None and function is np.floor_divide:
                 return NotImplemented
 
+            # The correction is computed from the operands more than once: it
+            # must not be built inside an output that is one of them (r %= d).
+            work = phase_out
+            if phase_out is not None and any(
+                isinstance(x, np.ndarray) and np.may_share_memory(phase_out, x)
+                for x in inputs
+            ):
+                work = None
+
             fd = np.floor_divide(self.cycle, divisor, out=fd_out)
-            corr = Phase.from_angles(*parts, factor=fd, out=phase_out)
+            corr = Phase.from_angles(*parts, factor=fd, out=work)
             remainder = np.subtract(self, corr, out=corr)
             fdx = np.floor_divide(remainder.cycle, divisor)
             # This can likely be optimized...
@@ -802,6 +811,11 @@ class Phase(Angle):
                 fd += fdx
                 corr = Phase.from_angles(*parts, factor=fd, out=corr)
                 remainder = np.subtract(self, corr, out=corr)
+
+            if work is not phase_out:
+                remainder = self.from_angles(
+                    remainder["int"], remainder["frac"], out=phase_out
+                )
 
             if function is np.floor_divide:
                 return fd
